@@ -197,6 +197,24 @@ let step (c : t) (op : string) (args : string list) : string * t =
             | StepOk _ -> ("stuck:but-enabled-in-model", { c with dead = Some "impl stuck, model enabled" })
             | _ -> ("stuck:blocked-in-model-too", c))
         | [] -> raise (Bad "stuck")
+      else if op = "prcl" then
+        (* one processor step that makes room in the insert buffer (or exits), and the client whose
+           remove() was waiting inside the send coming back: observed together, because the sender
+           wakes up on its own *)
+        match args with
+        | a :: rest -> (
+            match cstep c.cfg c.st (parse_label "pr" rest) with
+            | StepOk (st1, o1) -> (
+                match cstep c.cfg st1 (LClient (n_of_string a)) with
+                | StepOk (st2, o2) ->
+                    (str_out { o_at = o1.o_at; o_cbs = o1.o_cbs @ o2.o_cbs; o_res = o2.o_res }, { c with st = st2 })
+                | StepBlocked -> ("model-blocked", { c with dead = Some "model-blocked" })
+                | StepIllegal w -> ("model-illegal:" ^ string_of_n w, { c with dead = Some "model-illegal" })
+                | StepPanic w -> ("model-panic:" ^ string_of_n w, { c with dead = Some "model-panic" }))
+            | StepBlocked -> ("model-blocked", { c with dead = Some "model-blocked" })
+            | StepIllegal w -> ("model-illegal:" ^ string_of_n w, { c with dead = Some "model-illegal" })
+            | StepPanic w -> ("model-panic:" ^ string_of_n w, { c with dead = Some "model-panic" }))
+        | [] -> raise (Bad "prcl")
       else
         let l = parse_label op args in
         match cstep c.cfg c.st l with
